@@ -377,8 +377,11 @@ impl<Endpoint: Ord + Clone> BlockHandler<Endpoint> {
     ) -> Result<Option<BlockValue>, HandlingError> {
         let max_non_payload_size =
             (message_size + BLOCK_OPTIONS_MAX_LENGTH) - total_payload_size;
+        // A block size of zero cannot carry anything (and would divide by
+        // zero below), so treat it like a budget that is too small.
         let max_block_size = max_total_message_size
             .checked_sub(max_non_payload_size)
+            .filter(|&size| size > 0)
             .ok_or_else(|| {
                 HandlingError::internal(format!(
             "Message too large to encode at any block size: {} exceeds {}",
